@@ -17,7 +17,8 @@ ASSUMPTIONS = ["a redundant repeat of the matching signature may be accepted or 
 REQUIRED_FLAGS = ["hanging_note_ons", "after_history", "padded", "rejected_too_long", "rejected_conflicting_signature", "rejected_equal_length_signature", "accepted_exact", "signature_mid_bar",
                   "copy_compared", "dense_bar", "signature_deep_inside_a_dense_bar"]
 
-SIGCFG = ["none", "m0", "m1", "c0", "c1", "m0m1", "m0c1", "c0m1", "d0", "e0", "e1", "m0e1"]
+SIGCFG = ["none", "m0", "m1", "c0", "c1", "m0m1", "m0c1", "c0m1", "d0", "e0", "e1", "m0e1",
+          "c0m0", "m0c0", "c1m1", "e0m0"]      # two different signatures on ONE tick, in either order
 
 
 def context(tier, seed):
